@@ -339,9 +339,12 @@ pub fn judge_a(b: &[u8]) -> VerdictA {
         }
     }
     plain!("NackFci", <Nack as FciParser>::parse(b), None);
-    plain!("FirFci", <Fir as FciParser>::parse(b), None);
-    plain!("SliFci", <Sli as FciParser>::parse(b), None);
-    plain!("RpsiFci", <Rpsi as FciParser>::parse(b), None);
+    // RFC 5104 4.3.1.1 / RFC 4585 6.3.2.2, 6.3.3.2: a FIR FCI holds at least one 8-byte entry, an
+    // SLI FCI at least one 4-byte entry, an RPSI FCI at least PB, PT and padding to 32 bits.
+    // (A NACK FCI may be empty for this parser and a PLI FCI is empty: no minimum clause there.)
+    plain!("FirFci", <Fir as FciParser>::parse(b), Some(8));
+    plain!("SliFci", <Sli as FciParser>::parse(b), Some(4));
+    plain!("RpsiFci", <Rpsi as FciParser>::parse(b), Some(4));
     plain!("PliFci", <Pli as FciParser>::parse(b), None);
     // FCI parsers on the body of a feedback-shaped delivery, and parse_fci for all ten pairs
     if b.len() >= 12 {
@@ -729,7 +732,7 @@ impl Check for C18 {
     fn assumptions(&self) -> Vec<String> {
         vec![
             "exactness clauses are applied only under their stated preconditions (below the RFC minimum; version 2, right type, length != header length); when several defects coexist only the truth of the returned error is checked".into(),
-            "for Packet::parse the minimum and type are those of the variant the packet-type byte names; for the FCI parsers only the generic clauses apply".into(),
+            "for Packet::parse the minimum and type are those of the variant the packet-type byte names; for the FCI parsers the generic clauses apply, and the minimum-size clause with the RFC minima of FIR (8), SLI (4) and RPSI (4)".into(),
             "layer B puts only packets that Packet::parse accepts when intact on the stream, fragmentation is the only fault there".into(),
             "RFC minimum sizes hard-coded in the oracle".into(),
             "where an exactness clause fixes what must be reported, an unwind of the parser is a violation of that clause; any other unwind is C01's finding (inconclusive here)".into(),
